@@ -86,13 +86,15 @@ func cmdLiveness(args []string) int {
 	prefix := fs.Int("prefix", 120, "steps of the asynchronous prefix")
 	only := fs.Int("only", -1, "")
 	nMax := fs.Int("nmax", 7, "")
+	cuts := fs.Int("cuts", 0, "per directed schedule: one full run as prefix plus cuts-1 runs cut at a random step")
 	fs.Parse(args)
 	out := newNdjson(*outPath)
 	defer out.close()
 	stats := map[string]int{}
 	tmpl := map[string]int{}
 	worst := 0.0
-	for i := 0; i < *runs; i++ {
+	scNames := scenarioNames()
+	for i := 0; i < *runs+*cuts*len(scNames); i++ {
 		if *only >= 0 && i != *only {
 			continue
 		}
@@ -100,13 +102,27 @@ func cmdLiveness(args []string) int {
 		n := 4 + rnd.Intn(*nMax-3)
 		ws := pickWeights(rnd, n)
 		byz := pickByz(rnd, ws)
-		cl := newCluster(ws, byz, 1, rnd.Intn(2) == 0)
+		scen := ""
+		if i >= *runs { // the asynchronous prefix is a directed schedule of the attack library, cut at a random step
+			scen = scNames[(i-*runs)%len(scNames)]
+			n, ws, byz = 4, []uint64{1, 1, 1, 1}, scenarioByz(scen)
+		}
+		cl := newCluster(ws, byz, 1, scen == "" && rnd.Intn(2) == 0)
 		r := &run{cl: cl, adv: newAdversary(cl), rnd: rnd, out: out, chain: map[uint64]commitRec{}, maxH: 1, stats: stats, tmpl: tmpl, label: "liveness"}
 		lr := &liveRun{run: r, crashed: map[int]bool{}, armedAt: map[int]float64{}, lastReg: map[int][2]uint64{}}
 		r.emitInit(i)
-		r.startNodes()
-		pol := randomPolicy(rnd)
-		r.loop(rnd.Intn(*prefix+1), pol)
+		if scen == "" {
+			r.startNodes()
+			pol := randomPolicy(rnd)
+			r.loop(rnd.Intn(*prefix+1), pol)
+		} else {
+			r.label, r.maxH = "liveness:"+scen, 2
+			budget := -1
+			if (i-*runs)/len(scNames) > 0 {
+				budget = 3 + rnd.Intn(40)
+			}
+			scenarioTable[scen](&sc{run: r, name: scen, budget: budget})
+		}
 		// bring every correct node to the same height (node sync), the height that will be decided
 		var top uint64
 		for _, nd := range r.honest() {
@@ -174,7 +190,7 @@ func cmdLiveness(args []string) int {
 		for _, pp := range r.adv.ppSeen {
 			preGST[blockName(pp.Block())] = true
 		}
-		out.emit(obj{"ev": "stable", "h": absNum(top), "bound": bound, "crashed": crashedNames, "vmax": absNum(vmax), "faulty": faulty})
+		out.emit(obj{"ev": "stable", "order": []string{"fifo", "link_fifo", "any"}[i%3], "h": absNum(top), "bound": bound, "crashed": crashedNames, "vmax": absNum(vmax), "faulty": faulty})
 		// the timely fair schedule
 		for iter := 0; iter < 20000 && lr.timeouts <= 2*bound+10; iter++ {
 			if done, body := lr.commitOf(top); done && len(r.pool) == 0 {
@@ -196,8 +212,22 @@ func cmdLiveness(args []string) int {
 				}
 			}
 			if len(r.pool) > 0 {
-				p := r.pool[0]
-				r.pool = r.pool[1:]
+				// timely, not ordered: global FIFO, FIFO per link only, or any pending message
+				k := 0
+				switch i % 3 {
+				case 1:
+					k = rnd.Intn(len(r.pool))
+					for j := 0; j < k; j++ {
+						if r.pool[j].from == r.pool[k].from && r.pool[j].to == r.pool[k].to {
+							k = j
+							break
+						}
+					}
+				case 2:
+					k = rnd.Intn(len(r.pool))
+				}
+				p := r.pool[k]
+				r.pool = append(r.pool[:k:k], r.pool[k+1:]...)
 				r.deliverTo(cl.nodes[p.to], p.raw, "deliver", p.from, "")
 				lr.dropToDead(top)
 				lr.noteRegs()
